@@ -255,8 +255,19 @@ func detectBuiltInHeading(styleName string) (bool, int) {
 		return true, level
 	}
 
-	// Pattern match: "Heading 1", "Heading 2", etc.
+	// Pattern match: "Heading 1", "Heading 2", etc. ODF style names encode a space as
+	// "_20_" ("Heading_20_3"); those digits are not the level. The level is the number
+	// that follows the word.
 	if strings.HasPrefix(name, "heading") {
+		name = strings.ReplaceAll(name, "_20_", " ")
+		rest := strings.TrimLeft(name[len("heading"):], " _")
+		end := 0
+		for end < len(rest) && rest[end] >= '0' && rest[end] <= '9' {
+			end++
+		}
+		if n, err := strconv.Atoi(rest[:end]); err == nil && n >= 1 && n <= 9 {
+			return true, n
+		}
 		for i := 1; i <= 9; i++ {
 			if strings.Contains(name, strconv.Itoa(i)) {
 				return true, i
